@@ -10,11 +10,20 @@ import (
 // the two formats bfe uses. Exhaustive over all byte strings of length <= 2 (and <= 3 unless -short),
 // then over longer strings on an alphabet containing every byte class the model distinguishes.
 
+// A width >= 1000 encodes the pair of widths (wid/1000, wid%1000): format %<w1>s%<w2>s.
 func checkSscanfModel(t *testing.T, in []byte, wid int) bool {
+	wid2 := 0
 	format := fmt.Sprintf("%%%ds%%s", wid)
+	if wid >= 1000 {
+		wid, wid2 = wid/1000, wid%1000
+		format = fmt.Sprintf("%%%ds%%%ds", wid, wid2)
+	}
+	if w1, w2, ok := parseSscanfFormat(format); !ok || w1 != wid || w2 != wid2 {
+		t.Fatalf("parseSscanfFormat(%q) = %d, %d, %v", format, w1, w2, ok)
+	}
 	var a, b string
 	n, err := fmt.Sscanf(string(in), format, &a, &b)
-	out := sscanfWords(sscanfBytes(in), wid)
+	out := sscanfWords(sscanfBytes(in), wid, wid2)
 	ma, mb := "", ""
 	if out.n >= 1 {
 		ma = out.nativeWord(in, 0)
@@ -69,27 +78,32 @@ func TestSscanfModel(t *testing.T) {
 	for i := range all {
 		all[i] = byte(i)
 	}
-	wids := []int{6, 14, 1, 2}
+	wids := []int{6, 14, 1, 2, 6001, 14001, 1001, 2002, 1003}
 	enumSscanf(t, all, 0, wids)
 	enumSscanf(t, all, 1, wids)
 	enumSscanf(t, all, 2, wids)
 	if !testing.Short() {
-		enumSscanf(t, all, 3, []int{6, 1})
+		enumSscanf(t, all, 3, []int{6, 1, 6001, 1001})
 	}
 	// every byte class the decoder distinguishes, including all multi-byte white space encodings
 	classes := []byte{' ', '\n', '\r', '\t', 'a', '7', 'Z', 0x00, 0x7f, 0x80, 0x85, 0x8a, 0x9a, 0x9f, 0xa0, 0xa8, 0xaf, 0xbf,
 		0xc2, 0xc3, 0xe0, 0xe1, 0xe2, 0xe3, 0xed, 0xef, 0xf0, 0xf4, 0xf5, 0xff, 0x81, 0x90}
-	enumSscanf(t, classes, 4, []int{6, 2})
+	enumSscanf(t, classes, 4, []int{6, 2, 2001, 1002})
 	small := []byte{' ', '\n', '\r', 'a', '1', 0xc2, 0x85, 0xe2, 0x80, 0xff}
-	enumSscanf(t, small, 5, []int{6, 14, 2})
-	enumSscanf(t, small, 6, []int{6, 2})
+	enumSscanf(t, small, 5, []int{6, 14, 2, 2001, 2002})
+	enumSscanf(t, small, 6, []int{6, 2, 2001, 3002})
 	tiny := []byte{' ', 'a', '\n', 0xc2, 0xa0}
 	for l := 7; l <= 9; l++ {
-		enumSscanf(t, tiny, l, []int{6, 14})
+		enumSscanf(t, tiny, l, []int{6, 14, 6001, 6002})
 	}
 	two := []byte{' ', 'x'}
 	for l := 10; l <= 17; l++ {
-		enumSscanf(t, two, l, []int{6, 14})
+		enumSscanf(t, two, l, []int{6, 14, 6001, 14001, 14002})
+	}
+	for _, f := range []string{"%s%s", "%6s", "%6s%", "%6s%s%s", "%6d%1s", "%6s%0s", "%6s%1d", "%6s %1s", "%-6s%1s", "6s%1s", "%6s%1ss"} {
+		if _, _, ok := parseSscanfFormat(f); ok {
+			t.Errorf("parseSscanfFormat(%q) accepted", f)
+		}
 	}
 }
 
